@@ -39,7 +39,7 @@ def heuristicFreshness (g : Glue) (h : Header) (date : Int) : Int :=
 def currentAge (g : Glue) (now : Int) (e : Entry) : Int :=
   let h := e.resp.header
   let date := dateHeader g h
-  let ageVal := (parseDeltaSeconds (Header.get h sAge)).getD 0
+  let ageVal := (parseDeltaSeconds (firstListMember (Header.values h sAge))).getD 0
   let apparent := max (satSub e.receivedAt date) 0
   let delay := max (satSub e.receivedAt e.requestedAt) 0
   let corrected := satAdd ageVal delay
